@@ -164,7 +164,20 @@ def emit_codepoint(cp, rnd, style=None):
 def emit_string(b, rnd, style=None):
     """string literal denoting the bytes b (valid UTF-8, no U+0000)"""
     out = [b'"']
-    for ch in b.decode("utf-8"):
+    try:
+        text = b.decode("utf-8")
+    except UnicodeDecodeError:
+        if style == "strict":
+            raise
+        # not valid UTF-8 (lenient dialect only): bytes pass through raw, with the minimal escaping
+        for c in b:
+            if c in (0x22, 0x5C) or c < 0x20:
+                out.append(SHORT_ESC.get(c) or (b"\\u%04x" % c))
+            else:
+                out.append(bytes([c]))
+        out.append(b'"')
+        return b"".join(out)
+    for ch in text:
         out.append(emit_codepoint(ord(ch), rnd, style))
     out.append(b'"')
     return b"".join(out)
